@@ -391,6 +391,11 @@ pub fn run_case<W: World>(case: &VecCase, stats: &mut Stats) -> Result<VecRunInf
                 if x.cmp(x) != Ordering::Equal {
                     return Err(viol("ordering", step, op, "cmp not reflexive".into()));
                 }
+                // the comparison operators are part of the ordering too
+                let ops = [(x < y, got == Ordering::Less), (x <= y, got != Ordering::Greater), (x > y, got == Ordering::Greater), (x >= y, got != Ordering::Less)];
+                if ops.iter().any(|(a, b)| a != b) || !(x <= x) || !(x >= x) || x < x || x > x {
+                    return Err(viol("ordering", step, op, format!("<, <=, >, >= disagree with cmp ({:?})", got)));
+                }
                 if let Some(w) = want {
                     stats.inc("reach.cmp_normalised");
                     if cmp_low_only {
